@@ -19,20 +19,20 @@ func tAlphabet(sc *tScenario, size string) []string {
 	if t == 0 {
 		// first boundary: the genesis deputies D0 (income address inc0, votes for C1) and D1 (income
 		// address = itself, votes for itself) are paid at 11; C1 and C3 are elected at 8
-		core_ = []string{"xC2", "xC1", "xC3", "tXV150", "vVC3", "uC1+100", s(60), s(1000), "fee100", "vI0C3", "xD1", "vD1C3"}
-		small = []string{"xC2", "xC1", "tXV150", "vVC3", "uC1+100", "fee100"}
+		core_ = []string{"xC2", "xC1", "xC3", "tXV150", "vVC3", "uC1+100", s(60), s(1000), "fee150", "vI0C3", "xD1", "vD1C3"}
+		small = []string{"xC2", "xC1", "tXV150", "vVC3", "uC1+100", "fee150"}
 		more = []string{"tVX150", "uC3+100", "uD1+100", "xD0", s(0), s(2000), "vWC3",
-			"xC2,tXV150", "tXV150,vVC3", "vVC3,tXV150", "xC1,tXV150", "fee100,vI0C3", "vI0C3,fee100", "uC1+100,xC1", "xC3,vVC3", "xD1,fee100",
-			"B:uC1+100;vXnc", "B:vVC3;vXnc", "B:xC2;vXnc", "B:xC2;tXV150", "B:fee100;vXnc", "B:vI0C3;fee100"}
+			"xC2,tXV150", "tXV150,vVC3", "vVC3,tXV150", "xC1,tXV150", "fee150,vI0C3", "vI0C3,fee150", "uC1+100,xC1", "xC3,vVC3", "xD1,fee150",
+			"B:uC1+100;vXnc", "B:vVC3;vXnc", "B:xC2;vXnc", "B:xC2;tXV150", "B:fee150;vXnc", "B:vI0C3;fee150"}
 	} else {
 		// second boundary: the elected deputies C1 (income address = itself, votes for itself) and C3
 		// (income address incC3, which votes for C1) are paid at 19 in proportion to their snapshot votes;
 		// the genesis deputies are out of office
-		core_ = []string{"xC3", "xC1", "xC2", "tXV150", "vVC3", "uC1+100", s(60), s(2000), "fee100", "vC1C3", "vI3C3", "xD0"}
-		small = []string{"xC3", "xC1", "tXV150", "vVC3", "uC1+100", "fee100"}
+		core_ = []string{"xC3", "xC1", "xC2", "tXV150", "vVC3", "uC1+100", s(60), s(2000), "fee150", "vC1C3", "vI3C3", "xD0"}
+		small = []string{"xC3", "xC1", "tXV150", "vVC3", "uC1+100", "fee150"}
 		more = []string{"tVX150", "uC3+100", "xD1", s(0), s(400), "vWC3", "vI0C3",
-			"xC3,tXV150", "tXV150,vVC3", "vVC3,tXV150", "xC1,tXV150", "fee100,vI3C3", "vI3C3,fee100", "uC1+100,xC1", "xC2,vVC3", "xC3,fee100",
-			"B:uC1+100;vXnc", "B:vVC3;vXnc", "B:xC3;vXnc", "B:xC2;tXV150", "B:fee100;vXnc", "B:vC1C3;fee100"}
+			"xC3,tXV150", "tXV150,vVC3", "vVC3,tXV150", "xC1,tXV150", "fee150,vI3C3", "vI3C3,fee150", "uC1+100,xC1", "xC2,vVC3", "xC3,fee150",
+			"B:uC1+100;vXnc", "B:vVC3;vXnc", "B:xC3;vXnc", "B:xC2;tXV150", "B:fee150;vXnc", "B:vC1C3;fee150"}
 	}
 	switch size {
 	case "small":
@@ -55,7 +55,7 @@ func tPlans() []tPlan {
 	if core.Thorough() {
 		return []tPlan{{"TA", "full", 2}, {"TA", "small", 3}, {"TA'", "core", 2}, {"TA'", "full", 1}, {"TB", "full", 2}, {"TB'", "core", 2}, {"TB'", "full", 1}}
 	}
-	return []tPlan{{"TA", "core", 2}, {"TA", "full", 1}, {"TA'", "core", 1}, {"TB", "core", 1}, {"TB'", "core", 1}}
+	return []tPlan{{"TA", "core", 2}, {"TA", "full", 1}, {"TA'", "core", 1}, {"TB", "core", 2}, {"TB", "full", 1}, {"TB'", "core", 1}}
 }
 
 // windowHistories: every assignment of letters to the window heights with at most k non-empty blocks.
@@ -315,8 +315,8 @@ func termRuleText() string {
 		parts = append(parts, fmt.Sprintf("%s/%s(%d letters)/K=%d", p.scen, p.alpha, len(tAlphabet(sc, p.alpha)), p.k))
 	}
 	return "PHASE T (term boundaries; TermDuration=8, InterimDuration=2; real two-deputy node: block mined by the stand-alone assembler, confirmed by the other deputy, inserted with InsertBlock, stable before the next block): " +
-		"history = scripted prefix (funding; C1, C3, C2 register; term reward set; inc0 = income address of D0 votes C1; D1 makes itself its income address and votes for itself; V, C2, C3 vote C1; TB: C1 votes for itself, incC3 votes C1) + one block letter per window height (TA: 7..12, TB: 15..20 = term end, snapshot, interim, reward-1, reward block, reward+1; TA'/TB': rotation shifted) with at most K non-empty blocks, all positions x all letters; plans scenario/alphabet/K: " + strings.Join(parts, ", ") +
-		"; letters: unregister of a candidate that votes for another (refund at once / deferred to the reward block), of a candidate with voters, of a deputy in / out of office; transfers over the voter's 200-LEMO step; re-votes (voter, income address, self-voting deputy); top-ups over the 100-LEMO step; reward settings that do / do not cross the receivers' steps; a transfer whose 100-LEMO fee crosses the step of the miner's voting income address; multi-transaction blocks; boxes (packaged and rolled back); " +
+		"history = scripted prefix (funding; C1, C3, C2 register; term reward set; inc0 = income address of D0 and incC3 = income address of C3 vote C1; D1 makes itself its income address and votes for itself; V, C2, C3 vote C1; TB: C1 votes for itself) + one block letter per window height (TA: 7..12, TB: 15..20 = term end, snapshot, interim, reward-1, reward block, reward+1; TA'/TB': rotation shifted) with at most K non-empty blocks, all positions x all letters; plans scenario/alphabet/K: " + strings.Join(parts, ", ") +
+		"; letters: unregister of a candidate that votes for another (refund at once / deferred to the reward block), of a candidate with voters, of a deputy in / out of office; transfers over the voter's 200-LEMO step; re-votes (voter, income address, self-voting deputy); top-ups over the 100-LEMO step; reward settings that do / do not cross the receivers' steps; a transfer whose 150-LEMO fee crosses the step of the miner's voting income address; multi-transaction blocks; boxes (packaged and rolled back); " +
 		"oracle = the tally equation over all accounts ever touched on the state the miner would save AND on the validator's stored state, after every block"
 }
 
@@ -334,9 +334,12 @@ func termSelfCheck(r *core.Result) {
 	}
 	for _, hc := range []string{"term-end", "snapshot", "interim", "reward-1", "reward", "reward+1"} {
 		need = append(need, "T/hit/re-vote@"+hc, "T/hit/top-up-crossing-a-deposit-step@"+hc, "T/tx/unregister@"+hc, "T/tx/transfer@"+hc,
-			"T/hit/balance-change-crosses-step-of-voter/candidate-registered@"+hc, "T/hit/voter-of-unregistered-candidate-changes-weight@"+hc,
-			"T/hit/fees-cross-step-of-voting-income-address/votes-for-another@"+hc)
+			"T/hit/balance-change-crosses-step-of-voter/candidate-registered@"+hc, "T/hit/voter-of-unregistered-candidate-changes-weight@"+hc)
+		if r.Counters["T/hit/fees-cross-step-of-voting-income-address/votes-for-another@"+hc]+r.Counters["T/hit/fees-cross-step-of-voting-income-address/votes-for-itself@"+hc] == 0 {
+			need = append(need, "T/hit/fees-cross-step-of-voting-income-address/*@"+hc)
+		}
 	}
+	need = append(need, "T/hit/fees-cross-step-of-voting-income-address/votes-for-another@term-end", "T/hit/fees-cross-step-of-voting-income-address/votes-for-another@reward+1")
 	need = append(need, "T/hit/unregister-refund-deferred@snapshot", "T/hit/unregister-refund-deferred@interim", "T/hit/unregister-refund-deferred@reward-1", "T/hit/unregister-refunded-at-once@term-end")
 	var missing []string
 	for _, k := range need {
